@@ -52,8 +52,10 @@ func Token() {
 
 // WalkBudgetFactor relates the budget of ancestor-list expansions to the
 // token budget: a look-up that walks an inheritance lattice path by path is
-// work no token fetch accounts for.
-const WalkBudgetFactor = 50
+// work no token fetch accounts for. (The measured legitimate maximum, a
+// lattice of depth 23 looked up a dozen times, is a quarter of the token
+// budget; a tripped budget is only one of the two keys of a hang verdict.)
+const WalkBudgetFactor = 4
 
 // Walk is called whenever a look-up expands the ancestor list of a class.
 func Walk() {
